@@ -671,3 +671,37 @@ pub fn gen_facts(r: &mut Prng, cfg: &GenCfg) -> FactSet {
     f.normalise();
     f
 }
+
+// ------------------------------------------------------------------ real files of the repository
+
+pub struct RealFile {
+    pub name: &'static str,
+    pub version: u8,
+    pub facts: FactSet,
+    pub bytes: Vec<u8>,
+}
+
+/// The binary files shipped under `<repo>/tests`, decoded with the independent decoder.
+/// `big` adds tests/ontology.hpo (the full ontology). Files that are missing or do not decode are skipped.
+pub fn real_files(big: bool) -> &'static Vec<RealFile> {
+    use std::sync::OnceLock;
+    static SMALL: OnceLock<Vec<RealFile>> = OnceLock::new();
+    static BIG: OnceLock<Vec<RealFile>> = OnceLock::new();
+    let load = |names: &[&'static str]| -> Vec<RealFile> {
+        let repo = std::env::var("HPOSIM_REPO").unwrap_or_else(|_| "/repo".to_string());
+        let mut v = vec![];
+        for n in names {
+            if let Ok(bytes) = std::fs::read(format!("{repo}/tests/{n}")) {
+                if let Ok((version, facts)) = crate::binenc::decode(&bytes) {
+                    v.push(RealFile { name: n, version, facts, bytes });
+                }
+            }
+        }
+        v
+    };
+    if big {
+        BIG.get_or_init(|| load(&["ontology.hpo"]))
+    } else {
+        SMALL.get_or_init(|| load(&["example.hpo", "example_v1.hpo", "example_v2.hpo"]))
+    }
+}
